@@ -141,6 +141,19 @@ fn evaluate_do_block_expr(
             ));
         }
 
+        // A name that denotes a built-in function always denotes that function, so a local
+        // of that name could never be read
+        if is_built_in_function(ident) {
+            return Err(RuntimeError::with_span(
+                format!(
+                    "{} is the name of a built-in function, and cannot be reassigned",
+                    ident
+                ),
+                expr.span,
+                source.clone(),
+            ));
+        }
+
         // Evaluate the value (allow shadowing - no check for existing binding)
         let val = evaluate_ast(
             value,
@@ -343,14 +356,21 @@ pub fn evaluate_ast(
         Expr::Lambda { args, body } => {
             // `inf`, `infinity` and `constants` always denote the built-in constants, so a
             // parameter of that name could never be read
-            if let Some(arg) = args
-                .iter()
-                .find(|arg| matches!(arg.get_name(), "inf" | "infinity" | "constants"))
-            {
+            // ... and a name that denotes a built-in function always denotes that function
+            if let Some(arg) = args.iter().find(|arg| {
+                matches!(arg.get_name(), "inf" | "infinity" | "constants")
+                    || is_built_in_function(arg.get_name())
+            }) {
+                let kind = if is_built_in_function(arg.get_name()) {
+                    "the name of a built-in function"
+                } else {
+                    "a keyword"
+                };
                 return Err(RuntimeError::with_span(
                     format!(
-                        "{} is a keyword, and cannot be used as a parameter name",
-                        arg.get_name()
+                        "{} is {}, and cannot be used as a parameter name",
+                        arg.get_name(),
+                        kind
                     ),
                     expr.span,
                     source.clone(),
